@@ -177,7 +177,7 @@ func individualAtoms() []*reNode {
 		}
 	}
 	// hex escapes: ASCII, Latin-1, BMP, astral
-	for _, r := range []rune{0x01, 0x09, 0x0A, 0x20, 0x41, 0x7E, 0x7F, 0x80, 0xE9, 0xFF, 0x0100, 0x03A9, 0xFFFF, 0x10000, 0x1F600, 0x10FFFF} {
+	for _, r := range []rune{0x01, 0x09, 0x0A, 0x20, 0x41, 0x7E, 0x7F, 0x80, 0xE9, 0xFF, 0x0100, 0x03A9, 0xD7FF, 0xE000, 0xEEED, 0xEEEE, 0xEEEF, 0xF8FF, 0xFFFD, 0xFFFE, 0xFFFF, 0x10000, 0x1F600, 0xF0000, 0x10FFFD, 0x10FFFF} {
 		out = append(out, leaf(hexEsc(r), rsOf(r)))
 		if r > 0xFF || true {
 			out = append(out, leaf("["+hexEsc(r)+"]", rsOf(r)))
@@ -189,7 +189,7 @@ func individualAtoms() []*reNode {
 	out = append(out,
 		leaf("[a-z]", rsRange('a', 'z')), leaf("[0-9A-Fa-f]", posixSet["[:xdigit:]"]), leaf("[^0-9]", rsNegASCII(rsDigit)),
 		leaf(`[\x20-\x7E]`, rsRange(0x20, 0x7E)), leaf(`[\x21\x23-\x5B\x5D-\x7E]`, rsUnion(rsOf(0x21), rsRange(0x23, 0x5B), rsRange(0x5D, 0x7E))),
-		leaf(`[\x0100-\x0110]`, rsRange(0x100, 0x110)), leaf(`[a-a]`, rsOf('a')), leaf(`[!-/]`, rsRange('!', '/')),
+		leaf(`[\x0100-\x0110]`, rsRange(0x100, 0x110)), leaf(`[\xEEE0-\xEEF0]`, rsRange(0xEEE0, 0xEEF0)), leaf(`[a-a]`, rsOf('a')), leaf(`[!-/]`, rsRange('!', '/')),
 		leaf(`[\x09\x0A\x0D\x20]`, rsOf(9, 10, 13, 32)),
 		leaf(`[^a-z0-9]`, rsNegASCII(rsUnion(rsRange('a', 'z'), rsDigit))),
 		leaf(`[\x01-\x7F]`, rsASCII), leaf(".", rsASCII),
